@@ -52,7 +52,8 @@ let run (t : string list) : string =
         let l = Stdlib.String.length op in
         if op = "O" then begin
           let stale_rows = Stdlib.List.concat (Stdlib.List.map (fun d -> if Stdlib.List.mem d.sid !stale then d.srows else []) !s.dirs) in
-          outs := (observe !s (int_of_string nuids) (int_of_string nctx) ^ ";stalerows=" ^ ks stale_rows ^ ";bok=" ^ Stdlib.String.concat "," (Stdlib.List.rev !boks)
+          let incomplete = Stdlib.List.filter (fun d -> d.srows = [] && Stdlib.List.mem d.sid !s.live) !s.dirs in
+          outs := (observe !s (int_of_string nuids) (int_of_string nctx) ^ ";incomplete=" ^ ns (Stdlib.List.map (fun d -> d.sid) incomplete) ^ ";stalerows=" ^ ks stale_rows ^ ";bok=" ^ Stdlib.String.concat "," (Stdlib.List.rev !boks)
                    ^ ";index=" ^ Stdlib.String.concat "," (Stdlib.List.map (fun (i, us) -> string_of_n i ^ ":" ^ Stdlib.String.concat "+" (Stdlib.List.map string_of_n us)) !s.index)) :: !outs;
           boks := []
         end
